@@ -137,6 +137,53 @@ func main() {
 			}
 		}
 	}
+	// the same for states that are ALREADY active (an Add of active states still negotiates:
+	// self handlers XiXi), and CanRemove vs Remove with vetoing Exit handlers
+	for _, what := range []string{"re-add", "remove"} {
+		for mask := 0; mask < 8; mask++ {
+			total++
+			schema := am.Schema{"T": {}, "X1": {}, "X2": {}, "X3": {}}
+			ctx, cancel := context.WithCancel(context.Background())
+			m := am.New(ctx, schema, &am.Opts{Id: "verif-c03"})
+			neg := map[string]am.HandlerNegotiation{}
+			for i, x := range xs {
+				veto := mask&(1<<i) != 0
+				if what == "re-add" {
+					neg[x+x] = func(e *am.Event) bool { return !veto }
+				} else {
+					neg[x+"Exit"] = func(e *am.Event) bool { return !veto }
+				}
+			}
+			if _, err := m.HandlersBindMaps(neg, nil); err != nil {
+				panic(err)
+			}
+			m.Add(xs, nil)
+			before := fmt.Sprint(m.Time(nil), m.QueueTick())
+			var can, res am.Result
+			if what == "re-add" {
+				can = m.CanAdd(xs, nil)
+			} else {
+				can = m.CanRemove(xs, nil)
+			}
+			after := fmt.Sprint(m.Time(nil), m.QueueTick())
+			if what == "re-add" {
+				res = m.Add(xs, nil)
+			} else {
+				res = m.Remove(xs, nil)
+			}
+			cancel()
+			bad := ""
+			if before != after {
+				bad = "the check changed the machine: " + before + " -> " + after
+			}
+			if can != res {
+				bad += fmt.Sprintf(" the check answered %v, the mutation returned %v", can, res)
+			}
+			if bad != "" {
+				failing = append(failing, fmt.Sprintf("Can* vs mutation on active states: %s, veto mask %03b => %s", what, mask, strings.TrimSpace(bad)))
+			}
+		}
+	}
 	json.NewEncoder(os.Stdout).Encode(map[string]any{"failing": failing, "total": total})
 }
 `
